@@ -118,15 +118,15 @@ def register_sort_loops(reg):
                 "reader-frame": "reader.lines == old(reader).lines and reader.offs == old(reader).offs and reader.idx == old(reader).idx",
                 "one-line-per-record": "len(writer) == w0 + it2",
                 "earlier-output-kept": "forall(lambda k: implies(0 <= k < w0, writer[k] == old(writer)[k]))",
-                "line-len": "forall(lambda t: implies(0 <= t < it2, len(writer[w0 + t]) == 4))",
-                "line-0": "forall(lambda t: implies(0 <= t < it2, writer[w0 + t][0] == rstrip(reader.lines[reader.idx[gaf_alignments[t].offset]])))",
-                "line-bo": "forall(lambda t: implies(0 <= t < it2, writer[w0 + t][1] == cat('bo:i:', str(gaf_alignments[t].BO))))",
-                "line-sn": "forall(lambda t: implies(0 <= t < it2, writer[w0 + t][2] == cat('sn:Z:', gaf_alignments[t].sn)))",
-                "line-iv": "forall(lambda t: implies(0 <= t < it2, writer[w0 + t][3] == cat(cat('iv:i:', str(gaf_alignments[t].inv)), '\\n')))",
+                "line-len": "forall(lambda k: implies(w0 <= k < w0 + it2, len(writer[k]) == 4))",
+                "line-0": "forall(lambda k: implies(w0 <= k < w0 + it2, writer[k][0] == rstrip(reader.lines[reader.idx[gaf_alignments[k - w0].offset]])))",
+                "line-bo": "forall(lambda k: implies(w0 <= k < w0 + it2, writer[k][1] == cat('bo:i:', str(gaf_alignments[k - w0].BO))))",
+                "line-sn": "forall(lambda k: implies(w0 <= k < w0 + it2, writer[k][2] == cat('sn:Z:', gaf_alignments[k - w0].sn)))",
+                "line-iv": "forall(lambda k: implies(w0 <= k < w0 + it2, writer[k][3] == cat(cat('iv:i:', str(gaf_alignments[k - w0].inv)), '\\n')))",
                 "index-keys": "implies(not is_none(index_file), forall(STR, lambda s: (s in index_dict) == seen[s]))",
                 "index-untouched-without-file": "implies(is_none(index_file), index_dict == old(index_dict))",
-                "index-values": "implies(not is_none(index_file), forall(STR, lambda s: implies(seen[s], "
-                                "index_dict[s] == (woff(w0 + firstpos[s]), woff(w0 + lastpos[s])))))",
+                "index-first": "implies(not is_none(index_file), forall(STR, lambda s: implies(seen[s], index_dict[s][0] == woff(w0 + firstpos[s]))))",
+                "index-last": "implies(not is_none(index_file), forall(STR, lambda s: implies(seen[s], index_dict[s][1] == woff(w0 + lastpos[s]))))",
                 "first-last-range": "forall(STR, lambda s: implies(seen[s], 0 <= firstpos[s] <= lastpos[s] < it2 and "
                                     "gaf_alignments[firstpos[s]].sn == s and gaf_alignments[lastpos[s]].sn == s))",
                 "all-between": "forall(lambda t: implies(0 <= t < it2, seen[gaf_alignments[t].sn] and "
@@ -146,15 +146,15 @@ def register_sort_loops(reg):
             "count": "len(writer) == w0 + R()",
             "permutation": "forall(lambda j: implies(0 <= j < R(), 0 <= sort_perm[j] < R() and sort_perm_inv[sort_perm[j]] == j)) and "
                            "forall(lambda t: implies(0 <= t < R(), 0 <= sort_perm_inv[t] < R() and sort_perm[sort_perm_inv[t]] == t))",
-            "each-line-has-four-parts": "forall(lambda t: implies(0 <= t < R(), len(writer[w0 + t]) == 4))",
-            "each-line-is-its-input-line": "forall(lambda t: implies(0 <= t < R(), writer[w0 + t][0] == rstrip(old(reader).lines[sort_perm_inv[t]])))",
-            "plus-bo-tag": "forall(lambda t: implies(0 <= t < R(), writer[w0 + t][1] == cat('bo:i:', str(rec(sort_perm_inv[t])[0]))))",
-            "plus-sn-tag": "forall(lambda t: implies(0 <= t < R(), writer[w0 + t][2] == cat('sn:Z:', rec(sort_perm_inv[t])[4])))",
-            "plus-iv-tag": "forall(lambda t: implies(0 <= t < R(), writer[w0 + t][3] == cat(cat('iv:i:', str(rec(sort_perm_inv[t])[3])), '\\n')))",
+            "each-line-has-four-parts": "forall(lambda k: implies(w0 <= k < w0 + R(), len(writer[k]) == 4))",
+            "each-line-is-its-input-line": "forall(lambda k: implies(w0 <= k < w0 + R(), writer[k][0] == rstrip(old(reader).lines[sort_perm_inv[k - w0]])))",
+            "plus-bo-tag": "forall(lambda k: implies(w0 <= k < w0 + R(), writer[k][1] == cat('bo:i:', str(rec(sort_perm_inv[k - w0])[0]))))",
+            "plus-sn-tag": "forall(lambda k: implies(w0 <= k < w0 + R(), writer[k][2] == cat('sn:Z:', rec(sort_perm_inv[k - w0])[4])))",
+            "plus-iv-tag": "forall(lambda k: implies(w0 <= k < w0 + R(), writer[k][3] == cat(cat('iv:i:', str(rec(sort_perm_inv[k - w0])[3])), '\\n')))",
             # C10: the index
             "index-no-unknown": "implies(not is_none(index_file), not ('unknown' in pickled_index))",
             "index-entries": "implies(not is_none(index_file), forall(STR, lambda s: implies(s != 'unknown', (s in pickled_index) == seen[s] and "
-                             "implies(seen[s], pickled_index[s] == (woff(w0 + firstpos[s]), woff(w0 + lastpos[s]))))))",
+                             "implies(seen[s], pickled_index[s][0] == woff(w0 + firstpos[s]) and pickled_index[s][1] == woff(w0 + lastpos[s])))))",
             "index-first-last-are-records-of-the-contig": "forall(STR, lambda s: implies(seen[s], 0 <= firstpos[s] <= lastpos[s] < R() and "
                              "rec(sort_perm_inv[firstpos[s]])[4] == s and rec(sort_perm_inv[lastpos[s]])[4] == s))",
             "index-all-records-between": "forall(lambda t: implies(0 <= t < R(), seen[rec(sort_perm_inv[t])[4]] and "
